@@ -32,10 +32,12 @@ func gen(g *kernel.Rng, seed uint64, tier string) *kernel.Plan {
 		for i := 0; i < n; i++ {
 			switch g.Pick(5, 2, 5) {
 			case 0:
-				p.Ops = append(p.Ops, kernel.Op{K: "wc", T: t, N: []int64{int64(g.Intn(2))}})
+				// parent: 0 background, 1 context without id, 2 own latest context (which has an id)
+				p.Ops = append(p.Ops, kernel.Op{K: "wc", T: t, N: []int64{int64(g.Intn(3))}})
 			case 1:
 				// source: 0 nil, 1 own latest context (has id), 2 context without id
-				p.Ops = append(p.Ops, kernel.Op{K: "alias", T: t, N: []int64{int64(g.Intn(3))}})
+				// parent: 0 background, 1 own first context (carries its own, possibly different, id), 2 context without id
+				p.Ops = append(p.Ops, kernel.Op{K: "alias", T: t, N: []int64{int64(g.Intn(3)), int64(g.Intn(3))}})
 			default:
 				// [level, printf?, ctx kind (0 nil, 1 cid object, 2 own latest context, 3 context without id), msg seed, msg len]
 				p.Ops = append(p.Ops, kernel.Op{K: "log", T: t, N: []int64{int64(g.Intn(4)), int64(g.Intn(2)), int64(g.Intn(4)), int64(g.U32()), int64(g.Range(0, 40))}})
@@ -160,8 +162,13 @@ func run(p *kernel.Plan) (res *kernel.Result) {
 				switch o.K {
 				case "wc":
 					parent := context.Background()
-					if o.N[0] == 1 {
+					switch o.N[0] {
+					case 1:
 						parent = noID
+					case 2:
+						if n := len(ctxs[t]); n > 0 {
+							parent = ctxs[t][n-1].ctx
+						}
 					}
 					c := logger.WithContext(parent)
 					ctxs[t] = append(ctxs[t], &ctxRec{ctx: c, fresh: true, source: -1, task: t})
@@ -178,7 +185,18 @@ func run(p *kernel.Plan) (res *kernel.Result) {
 						src = noID
 					}
 					rec.fresh = rec.source < 0
-					rec.ctx = logger.AliasContext(context.Background(), src)
+					parent := context.Background()
+					if len(o.N) > 1 {
+						switch o.N[1] {
+						case 1:
+							if len(ctxs[t]) > 0 {
+								parent = ctxs[t][0].ctx
+							}
+						case 2:
+							parent = noID
+						}
+					}
+					rec.ctx = logger.AliasContext(parent, src)
 					ctxs[t] = append(ctxs[t], rec)
 				case "log":
 					lr := logRec{level: o.N[0], printf: o.N[1], ctxKind: o.N[2], msg: msgs[i], ctxIdx: -1}
